@@ -151,7 +151,14 @@ impl Story {
                     self.get_state().set_in_expression_evaluation(false);
                 }
                 CommandType::Duplicate => {
-                    let obj = self.get_state().peek_evaluation_stack().unwrap().clone();
+                    let obj = match self.get_state().peek_evaluation_stack() {
+                        Some(obj) => obj.clone(),
+                        None => {
+                            return Err(StoryError::InvalidStoryState(
+                                "Nothing on the evaluation stack to duplicate".to_owned(),
+                            ));
+                        }
+                    };
                     self.get_state_mut().push_evaluation_stack(obj);
                 }
                 CommandType::PopEvaluatedValue => {
@@ -476,6 +483,12 @@ impl Story {
 
                     if int_val.is_none() {
                         return Err(StoryError::InvalidStoryState("Passed non-integer when creating a list element from a numerical value.".to_owned()));
+                    }
+
+                    if list_name_val.is_none() {
+                        return Err(StoryError::InvalidStoryState(
+                            "Expected the name of a list when creating a list element from a numerical value.".to_owned(),
+                        ));
                     }
 
                     let mut generated_list_value: Option<Value> = None;
